@@ -20,13 +20,26 @@ abbrev Reservoirs (K P : Type) := List (Nat × GeometricReservoirStorage K P Uni
 def findR {K P : Type} (rs : Reservoirs K P) (leaf : Nat) : Option (GeometricReservoirStorage K P Unit) :=
   (rs.find? (fun e => e.1 == leaf)).map Prod.snd
 
-/-- `_update_data_reservoirs` for one feature: create the routed leaf's reservoir if new and then drop reservoirs
-    whose leaf id is no longer a leaf of the tree; finally insert the data point into the routed leaf's reservoir. -/
+/-- `_update_data_reservoirs` for one feature (after `fix:` a088161): create the routed leaf's reservoir if it is new, then — on
+    EVERY update — drop the reservoirs whose leaf id is no longer a leaf of the tree; finally insert the data point into the
+    routed leaf's reservoir. -/
 def updateFeature {P : Type} (L : Nat) (rs : Reservoirs K P) (leaf : Nat) (allLeaves : List Nat) (x : P) (rnd : Rnd K) :
+    Reservoirs K P × Rnd K :=
+  let rs0 := if (findR rs leaf).isSome then rs
+    else rs ++ [(leaf, GeometricReservoirStorage.init L (some (1 : K)) false)]
+  let rs1 := rs0.filter (fun e => allLeaves.contains e.1)
+  -- `data_reservoir[leaf_id].update(x)`: a KeyError if the routed id was itself deleted; modelled as "no insertion"
+  match findR rs1 leaf with
+  | none => (rs1, rnd)
+  | some r =>
+    let (r', rnd') := r.update x () rnd
+    (rs1.map (fun e => if e.1 == leaf then (e.1, r') else e), rnd')
+
+/-- the shipped behaviour before the fix, kept to document the defect: the clean-up ran only when the routed leaf id was new -/
+def updateFeatureShipped {P : Type} (L : Nat) (rs : Reservoirs K P) (leaf : Nat) (allLeaves : List Nat) (x : P) (rnd : Rnd K) :
     Reservoirs K P × Rnd K :=
   let rs1 := if (findR rs leaf).isSome then rs
     else (rs ++ [(leaf, GeometricReservoirStorage.init L (some (1 : K)) false)]).filter (fun e => allLeaves.contains e.1)
-  -- `data_reservoir[leaf_id].update(x)`: a KeyError if the new id was itself deleted; modelled as "no insertion"
   match findR rs1 leaf with
   | none => (rs1, rnd)
   | some r =>
